@@ -257,6 +257,13 @@ impl GrammarBuilder {
 
         for rule in rules {
             self.check_identifier(&rule.name)?;
+            if ["AUG", "AUGL", "EMPTY", "STOP"].contains(&rule.name.as_ref().as_str()) {
+                return err!(
+                    format!("Rule name '{}' is reserved.", rule.name),
+                    Some(self.file.clone()),
+                    rule.name.span
+                );
+            }
             // Create new nonterm index if needed
             let nt_idx;
             if let Some(nonterminal) = self.nonterminals.get(rule.name.as_ref()) {
@@ -606,6 +613,16 @@ impl GrammarBuilder {
                 {
                     assign.symbol.index = Some(match symbol {
                         GrammarSymbol::Name(name) => {
+                            if name.as_ref() == "STOP" {
+                                return err!(
+                                    format!(
+                                        "Implicit terminal 'STOP' can't be referenced in production '{}'.",
+                                        production_str
+                                    ),
+                                    Some(self.file.clone()),
+                                    name.span
+                                );
+                            }
                             if let Some(terminal) = self.terminals.get(name.as_ref()) {
                                 terminal.idx.symbol_index()
                             } else {
